@@ -75,9 +75,6 @@ type closure struct {
 
 type bad struct{}
 
-type rtype struct {
-	t types.Type
-}
 
 // Hash functions and equivalence relation:
 
@@ -184,13 +181,6 @@ func (x iface) hash(outer types.Type) int {
 	return hashType(x.t)*8581 + hash(outer, x.t, x.v)
 }
 
-func (x rtype) hash(_ types.Type) int {
-	return hashType(x.t)
-}
-
-func (x rtype) eq(_ types.Type, y interface{}) bool {
-	return types.Identical(x.t, y.(rtype).t)
-}
 
 // equals returns true iff x and y are equal according to Go's
 // linguistic equivalence relation for type t.
@@ -236,13 +226,15 @@ func equals(t types.Type, x, y value) bool {
 		return x == y.(*value)
 	case chan value:
 		return x == y.(chan value)
+	case *schan:
+		return x == y.(*schan)
+	case *amap:
+		return x == y.(*amap)
 	case structure:
 		return x.eq(t, y)
 	case array:
 		return x.eq(t, y)
 	case iface:
-		return x.eq(t, y)
-	case rtype:
 		return x.eq(t, y)
 	}
 
@@ -302,8 +294,6 @@ func hash(outer, t types.Type, x value) int {
 	case array:
 		return x.hash(t)
 	case iface:
-		return x.hash(t)
-	case rtype:
 		return x.hash(t)
 	}
 	panic(fmt.Sprintf("unhashable type %v", outer))
@@ -366,29 +356,22 @@ func writeValue(buf *bytes.Buffer, v value) {
 	case nil, bool, int, int8, int16, int32, int64, uint, uint8, uint16, uint32, uint64, uintptr, float32, float64, complex64, complex128, string:
 		fmt.Fprintf(buf, "%v", v)
 
-	case map[value]value:
-		buf.WriteString("map[")
-		sep := ""
-		for k, e := range v {
-			buf.WriteString(sep)
-			sep = " "
-			writeValue(buf, k)
-			buf.WriteString(":")
-			writeValue(buf, e)
-		}
-		buf.WriteString("]")
+	case *sym:
+		buf.WriteString(v.String())
 
-	case *hashmap:
+	case *amap:
 		buf.WriteString("map[")
-		sep := " "
-		for _, e := range v.entries() {
-			for e != nil {
+		if v != nil {
+			sep := ""
+			for i, k := range v.keys {
+				if v.dead[i] {
+					continue
+				}
 				buf.WriteString(sep)
 				sep = " "
-				writeValue(buf, e.key)
+				writeValue(buf, k)
 				buf.WriteString(":")
-				writeValue(buf, e.value)
-				e = e.next
+				writeValue(buf, v.vals[i])
 			}
 		}
 		buf.WriteString("]")
@@ -441,8 +424,6 @@ func writeValue(buf *bytes.Buffer, v value) {
 	case *ssa.Function, *ssa.Builtin, *closure:
 		fmt.Fprintf(buf, "%p", v) // (an address)
 
-	case rtype:
-		buf.WriteString(v.t.String())
 
 	case tuple:
 		// Unreachable in well-formed Go programs
@@ -488,37 +469,3 @@ func (it *stringIter) next() tuple {
 	return okv
 }
 
-type mapIter struct {
-	iter *reflect.MapIter
-	ok   bool
-}
-
-func (it *mapIter) next() tuple {
-	it.ok = it.iter.Next()
-	if !it.ok {
-		return []value{false, nil, nil}
-	}
-	k, v := it.iter.Key().Interface(), it.iter.Value().Interface()
-	return []value{true, k, v}
-}
-
-type hashmapIter struct {
-	iter *reflect.MapIter
-	ok   bool
-	cur  *entry
-}
-
-func (it *hashmapIter) next() tuple {
-	for {
-		if it.cur != nil {
-			k, v := it.cur.key, it.cur.value
-			it.cur = it.cur.next
-			return []value{true, k, v}
-		}
-		it.ok = it.iter.Next()
-		if !it.ok {
-			return []value{false, nil, nil}
-		}
-		it.cur = it.iter.Value().Interface().(*entry)
-	}
-}
